@@ -284,7 +284,8 @@ struct OwningTask<S> { sub: std::sync::Mutex<Option<S>> }
 impl<S: Send> std::task::Wake for OwningTask<S> { fn wake(self: Arc<Self>) {} }
 
 /// W. reference cycle state -> waker -> task -> subscriber -> state (C20: nothing is leaked)
-fn waker_cycle_case(sink: &mut Sink, id: &str, shared: bool, asyncf: bool, write_between: bool, poll_after_close: bool, unwinding: bool) {
+/// `weak`: a `WeakObservable` is alive while the last owner goes away (and is dropped after the task)
+fn waker_cycle_case(sink: &mut Sink, id: &str, shared: bool, asyncf: bool, write_between: bool, poll_after_close: bool, unwinding: bool, weak: bool) {
     sink.case(id);
     reset_registry();
     {
@@ -309,11 +310,15 @@ fn waker_cycle_case(sink: &mut Sink, id: &str, shared: bool, asyncf: bool, write
             (false, false) => { let mut ob = Observable::new(Tok::new(1)); let sub = Observable::subscribe(&ob); let p: *mut Observable<Tok> = &mut ob;
                 cycle(sub, || { Observable::set(unsafe { &mut *p }, Tok::new(2)); }, || gone(unsafe { std::ptr::read(p) }, unwinding), write_between, poll_after_close); std::mem::forget(ob); }
             (true, false) => { let ob = SharedObservable::new(Tok::new(1)); let sub = ob.subscribe(); let ob2 = ob.clone();
-                cycle(sub, move || { ob2.set(Tok::new(2)); drop(ob2); }, move || gone(ob, unwinding), write_between, poll_after_close); }
+                let wk = if weak { Some(ob.downgrade()) } else { None };
+                cycle(sub, move || { ob2.set(Tok::new(2)); drop(ob2); }, move || gone(ob, unwinding), write_between, poll_after_close);
+                if let Some(wk) = wk { if wk.upgrade().is_some() { sink.oracle_fail("C03,C20", "a weak reference upgrades after the last owner was dropped"); } } }
             (false, true) => { let mut ob = Observable::new_async(Tok::new(1)); let sub = Observable::subscribe_async(&ob); let p: *mut Observable<Tok, AsyncLock> = &mut ob;
                 cycle(sub, || { now(Observable::set_async(unsafe { &mut *p }, Tok::new(2))); }, || gone(unsafe { std::ptr::read(p) }, unwinding), write_between, poll_after_close); std::mem::forget(ob); }
             (true, true) => { let ob = SharedObservable::new_async(Tok::new(1)); let sub = now(ob.subscribe()); let ob2 = ob.clone();
-                cycle(sub, move || { now(ob2.set(Tok::new(2))); drop(ob2); }, move || gone(ob, unwinding), write_between, poll_after_close); }
+                let wk = if weak { Some(ob.downgrade()) } else { None };
+                cycle(sub, move || { now(ob2.set(Tok::new(2))); drop(ob2); }, move || gone(ob, unwinding), write_between, poll_after_close);
+                if let Some(wk) = wk { if wk.upgrade().is_some() { sink.oracle_fail("C03,C20", "a weak reference upgrades after the last owner was dropped"); } } }
         }
     }
     let live = LIVE.with(|l| l.borrow().len());
@@ -370,8 +375,11 @@ pub fn run(args: &Args, sink: &mut Sink) {
     let thorough = args.tier == "thorough";
     let mut nw = 0;
     for shared in [false, true] { for asyncf in [false, true] { for wb in [false, true] { for pa in [false, true] { for unw in [false, true] {
-        nw += 1;
-        waker_cycle_case(sink, &format!("W{nw}"), shared, asyncf, wb, pa, unw);
+        for weak in [false, true] {
+            if weak && !shared { continue; }
+            nw += 1;
+            waker_cycle_case(sink, &format!("W{nw}"), shared, asyncf, wb, pa, unw, weak);
+        }
     } } } } }
     let mut np = 0;
     for shared in [false, true] { for asyncf in [false, true] { for which in 0..3u8 { for with_sub in [false, true] {
